@@ -246,14 +246,7 @@ Proof.
   destruct (f_c0 f); split; reflexivity.
 Qed.
 
-(* the part of add_entries after the conflict handling *)
-Definition after_conflict (P : params) (es : list entry) (d1 : disk) : disk :=
-  let '(off, c) :=
-    if d_next d1 =? 0 then (data_off P, d_cur d1)
-    else let p := d_next d1 - 1 in
-         let '(n, c) := cell_len (d_cur d1) p in
-         (s_off (slot_at (d_cur d1) p) + 4 + n, c) in
-  append_loop P es off (mkdisk (d_files d1) c (d_next d1) (d_meta d1)).
+(* [after_conflict] (Model.v) is the part of add_entries after the conflict handling *)
 
 Lemma after_conflict_fill : forall P e r d1 g bottom,
   f_rows (d_cur d1) = g :: bottom -> s_index (r_slot g) = 0 -> forallb live_row bottom = true ->
